@@ -513,7 +513,14 @@ impl<'a> TypingOracleCtx<'a> {
                     (**elem).dupe(),
                 )),
                 "index" => Ok(Ty::function(
-                    ParamSpec::pos_only([(**elem).dupe()], [Ty::int()]),
+                    // `index(needle, start=None, end=None)`
+                    ParamSpec::pos_only(
+                        [(**elem).dupe()],
+                        [
+                            Ty::union2(Ty::int(), Ty::none()),
+                            Ty::union2(Ty::int(), Ty::none()),
+                        ],
+                    ),
                     Ty::int(),
                 )),
                 "remove" => Ok(Ty::function(
